@@ -566,6 +566,13 @@ func init() {
 	intrinsics["math/rand.Uint32"] = func(fr *frame, a []value) value { return cint(0x89abcdef) }
 	intrinsics["math/rand.Intn"] = func(fr *frame, a []value) value { return cint(uint64(asInt64(a[0])) / 2) }
 	intrinsics["math/rand.Seed"] = ret0
+	intrinsics["math/rand.Read"] = func(fr *frame, a []value) value {
+		p := a[0].([]value)
+		for i := range p {
+			setCell(&p[i], cint(byte(37*i+11)))
+		}
+		return tuple{cint(len(p)), iface{}}
+	}
 
 	// ---- the AF_PACKET socket wrapper of /repo (environment: a socket cannot be opened here) ----
 	intrinsics["(*github.com/v-byte-cpu/sx/pkg/packet/afpacket.Source).SetBPFFilter"] = func(fr *frame, a []value) value { return iface{} }
